@@ -95,6 +95,10 @@ type op struct {
 type precBuf struct {
 	prec byte
 	buf  []byte
+	// not is true if the text ends with a bare ! expression. The parser
+	// lets a ! take everything to its right so as a left operand it has to
+	// be wrapped with parenthesis.
+	not bool
 }
 
 type multivalue []any
@@ -820,6 +824,7 @@ func (s *Script) appendOp(o *op, left, right any) (pb *precBuf) {
 	pb = &precBuf{prec: o.prec}
 	switch o.code {
 	case not.code:
+		pb.not = true
 		pb.buf = append(pb.buf, o.name...)
 		pb.buf = s.appendValue(pb.buf, left, o.prec)
 	case group.code:
@@ -846,13 +851,29 @@ func (s *Script) appendOp(o *op, left, right any) (pb *precBuf) {
 		}
 		pb.buf = append(pb.buf, ')')
 	default:
-		pb.buf = s.appendValue(pb.buf, left, o.prec)
+		pb.buf, _ = s.appendOperand(pb.buf, left, o.prec, false)
 		pb.buf = append(pb.buf, ' ')
 		pb.buf = append(pb.buf, o.name...)
 		pb.buf = append(pb.buf, ' ')
-		pb.buf = s.appendValue(pb.buf, right, o.prec)
+		pb.buf, pb.not = s.appendOperand(pb.buf, right, o.prec, true)
 	}
 	return
+}
+
+// appendOperand appends the operand of a binary operator. Operators of the
+// same precedence are parsed left to right so a right operand of the same
+// precedence needs parenthesis to keep the evaluation order.
+func (s *Script) appendOperand(buf []byte, v any, prec byte, right bool) ([]byte, bool) {
+	pb, _ := v.(*precBuf)
+	if pb == nil {
+		return s.appendValue(buf, v, prec), false
+	}
+	if prec < pb.prec || (right && prec == pb.prec) || (!right && pb.not) {
+		buf = append(buf, '(')
+		buf = append(buf, pb.buf...)
+		return append(buf, ')'), false
+	}
+	return append(buf, pb.buf...), pb.not
 }
 
 func (s *Script) appendValue(buf []byte, v any, prec byte) []byte {
